@@ -338,13 +338,14 @@ def run_shard(prop, run, binpath, tier, seed, shard_i, shard_n, logdir, extra_ar
     segment = 0
     max_restarts = run.get("max_restarts", 60)
     timeout = run.get("timeout", {}).get(tier, 3600 if tier == "quick" else 4 * 3600)
-    hashfile = os.path.join(logdir, "%s.%d.hashes" % (run["bin"], shard_i))
+    tag = run["bin"] + (("-" + run["logtag"]) if run.get("logtag") else "")
+    hashfile = os.path.join(logdir, "%s.%d.hashes" % (tag, shard_i))
     if os.path.exists(hashfile):
         os.remove(hashfile)
     t0 = time.time()
     wrapper = run.get("wrapper", [])
     while True:
-        log = os.path.join(logdir, "%s.%d.%d.log" % (run["bin"], shard_i, segment))
+        log = os.path.join(logdir, "%s.%d.%d.log" % (tag, shard_i, segment))
         cmd = wrapper + [binpath, "--tier", tier, "--seed", str(seed), "--shard", "%d/%d" % (shard_i, shard_n),
                          "--hashout", hashfile] + args
         if only is not None:
@@ -550,7 +551,8 @@ def check(prop, tier, seed, replay=None):
     per_bin_cases = {}
     for run, r in results:
         total_cases += r.cases
-        per_bin_cases[run["bin"]] = per_bin_cases.get(run["bin"], 0) + r.cases
+        rtag = run["bin"] + (("-" + run["logtag"]) if run.get("logtag") else "")
+        per_bin_cases[rtag] = per_bin_cases.get(rtag, 0) + r.cases
         for k, v in r.classes.items():
             classes[k] = classes.get(k, 0) + v
         for k, v in r.stats.items():
@@ -584,8 +586,9 @@ def check(prop, tier, seed, replay=None):
     floor_fail = []
     for run in runs:
         fl = run.get("min_cases", {}).get(tier, 1)
-        if per_bin_cases.get(run["bin"], 0) < fl:
-            floor_fail.append("%s ran %d cases, floor %d" % (run["bin"], per_bin_cases.get(run["bin"], 0), fl))
+        rtag = run["bin"] + (("-" + run["logtag"]) if run.get("logtag") else "")
+        if per_bin_cases.get(rtag, 0) < fl:
+            floor_fail.append("%s ran %d cases, floor %d" % (rtag, per_bin_cases.get(rtag, 0), fl))
     ro = cfg.get("require_obs", [])
     if isinstance(ro, dict):
         ro = ro.get(tier, ro.get("all", []))
